@@ -23,10 +23,14 @@ type vxC10Case struct {
 	Ratio  string `json:"ratio"`  // control cycles per RPM poll: "5:1" | "1:1" | "1:5"
 	Curve  int    `json:"curve"`
 	Map    string `json:"map"` // PWM map ("" = identity)
+	// DevQuant > 1: the PWM register is coarser than the map assumes (stores value/q*q), so the read-back differs from what was written
+	DevQuant int `json:"devQuant,omitempty"`
+	// Meddler: another actor (BIOS/EC) rewrites the PWM register to 7 after every control cycle
+	Meddler bool `json:"meddler,omitempty"`
 }
 
 func (c vxC10Case) String() string {
-	return fmt.Sprintf("%s limits[%d,%d] theta=%d r0=%d window=%d cycles:polls=%s curve=%d map=%s", c.Kind, c.Min, c.Max, c.Theta, c.R0, c.Window, c.Ratio, c.Curve, c.Map)
+	return fmt.Sprintf("%s limits[%d,%d] theta=%d r0=%d window=%d cycles:polls=%s curve=%d map=%s devQuant=%d meddler=%v", c.Kind, c.Min, c.Max, c.Theta, c.R0, c.Window, c.Ratio, c.Curve, c.Map, c.DevQuant, c.Meddler)
 }
 
 type vxC10Res struct {
@@ -47,6 +51,10 @@ func vxC10Run(c vxC10Case) (res vxC10Res, fail [2]string) {
 		cfg.Min, cfg.Max = -1, -1
 	}
 	fx := vxNewFixRole(cfg, "search")
+	if c.DevQuant > 1 {
+		q := c.DevQuant
+		fx.fs.F(fx.dev.Pwm).OnWrite = func(v int) (int, bool, error) { return v / q * q, true, nil }
+	}
 	stalledPhase := false
 	fx.dev.RpmOf = func(pwm int) int {
 		if !stalledPhase {
@@ -81,6 +89,9 @@ func vxC10Run(c vxC10Case) (res vxC10Res, fail [2]string) {
 		if p != "" {
 			fail = [2]string{"C10 panic in control cycle", p}
 			return false
+		}
+		if c.Meddler && stalledPhase {
+			fx.fs.F(fx.dev.Pwm).Val = 7
 		}
 		return cycErr == nil
 	}
@@ -250,7 +261,15 @@ func TestVX_C10(t *testing.T) {
 								if cv != 0 && (ra != "5:1" || w > 10) {
 									continue
 								}
-								cases = append(cases, vxC10Case{kind, l[0], l[1], th, r0, w, ra, cv, ""})
+								cases = append(cases, vxC10Case{kind, l[0], l[1], th, r0, w, ra, cv, "", 0, false})
+								// a register coarser than the map, and a second actor rewriting the register between cycles:
+								// the read-back never matches what fan2go wrote, the stall must be noticed all the same
+								if w <= 2 && r0 >= 500 && ra == "5:1" && cv == 0 && kind == "hwmon" {
+									cases = append(cases, vxC10Case{kind, l[0], l[1], th, r0, w, ra, cv, "", 4, false})
+									if th == 999 {
+										cases = append(cases, vxC10Case{kind, l[0], l[1], th, r0, w, ra, cv, "", 0, true})
+									}
+								}
 								// sparse / quantising PWM maps: the request is usually not itself a supported input
 								if w <= 2 && r0 >= 500 && ra == "5:1" {
 									maps := []string{"readme", "three"}
@@ -258,7 +277,7 @@ func TestVX_C10(t *testing.T) {
 										maps = []string{"readme", "three", "compress", "quant5"}
 									}
 									for _, mp := range maps {
-										cases = append(cases, vxC10Case{kind, l[0], l[1], th, r0, w, ra, cv, mp})
+										cases = append(cases, vxC10Case{kind, l[0], l[1], th, r0, w, ra, cv, mp, 0, false})
 									}
 								}
 							}
